@@ -1,7 +1,7 @@
 (* C12 — correspondence + monitor functions evaluated (vm_compute) on the heaps the harness read from the
    real objects.  Nothing here is a theorem.  The model runs with the table generated from the source. *)
 From Coq Require Import List String Bool Arith ZArith.
-From Cobra.Copy Require Import Heap Model Obs.
+From Cobra.Copy Require Import Heap Model Obs CopyWf CopyDesc CopyWfContent CopyEquiv.
 From Cobra.Gen Require Import CopyTables.
 Import ListNotations.
 
@@ -17,7 +17,16 @@ Record ccase := mkCase {
 (* codes: 1 model and implementation differ   2 result shares a mutable object with what existed before
           3 result is not equivalent to the operand   4 objects of the result are not fresh / do not point at the
           copy (model copies) or are not detached (Reaction.copy, Metabolite.copy)
-          5 the operation changed its operand   6 input heap outside the typing discipline of the theorems *)
+          5 the operation changed its operand   6 input heap outside the typing discipline of the theorems
+          7 (model operand) the hypothesis `wf_model_heap` of the general separation / frame theorems of Model.copy
+            (Copy/CopySep.v) does not hold for this real heap
+          8 (model operand) the hypothesis `wf_model_content` of the general structure theorem of Model.copy
+            (Copy/CopyWfContent.v: the copy does not raise, per-class description) does not hold for this real heap
+          9 (model operand) the hypothesis `consistent_b` of the general equivalence theorem `model_copy_equiv`
+            (Copy/CopyEquiv.v: back references agree with the reactions) does not hold for this real heap *)
+Definition is_model_op (o : cop) : bool :=
+  match o with OpModelCopy | OpDeepcopy | OpPickle => true | _ => false end.
+
 Definition check_case (c : ccase) : list (nat * nat) :=
   let T := current_table in
   let o := c_op c in
@@ -38,8 +47,12 @@ Definition check_case (c : ccase) : list (nat * nat) :=
   let c4 := points_b o n hp res in
   let c5 := old_unchanged h0 hp in
   let c6 := heap_wf_b h0 && typed_b T h0 in
+  let c7 := if is_model_op o then wf_model_heap T h0 (c_root c) else true in
+  let c8 := if is_model_op o then wf_model_content T h0 (c_root c) else true in
+  let c9 := if is_model_op o then consistent_b T h0 (c_root c) else true in
   (if c1 then [] else [(0%nat, 1%nat)]) ++ (if c2 then [] else [(0%nat, 2%nat)]) ++ (if c3 then [] else [(0%nat, 3%nat)]) ++
-  (if c4 then [] else [(0%nat, 4%nat)]) ++ (if c5 then [] else [(0%nat, 5%nat)]) ++ (if c6 then [] else [(0%nat, 6%nat)]).
+  (if c4 then [] else [(0%nat, 4%nat)]) ++ (if c5 then [] else [(0%nat, 5%nat)]) ++ (if c6 then [] else [(0%nat, 6%nat)]) ++
+  (if c7 then [] else [(0%nat, 7%nat)]) ++ (if c8 then [] else [(0%nat, 8%nat)]) ++ (if c9 then [] else [(0%nat, 9%nat)]).
 
 Definition failing (cases : list (Z * ccase)) : list (Z * list (nat * nat)) :=
   filter (fun r => match snd r with [] => false | _ => true end)
